@@ -29,7 +29,7 @@ func init() {
 				"into the serve functions.",
 			NotCovered: "equality of payloads across transports, framing arithmetic, message contents; the DNSCrypt goroutines " +
 				"belong to the dnscrypt library.",
-			Rules: map[string]string{"C01-R38": "a DoH POST body is read entirely, or through a limiter of at least dns.MaxMsgSize bytes: a well-formed query is not cut to a smaller size (and then refused) on this encoding only", "C01-R37": "the stream writer truncates again after the keep-alive option was added (shared with C08-R22): a response that the option pushes over 65535 bytes is sent truncated, not replaced by a SERVFAIL for a packing error", "C01-R36": "the plain-DNS listener reads UDP datagrams into buffers that hold every well-formed query (dns.MaxMsgSize): a longer datagram is cut by the read, fails to unpack and is dropped without a response (known finding F65: production reads into 512 bytes)", "C01-R35": "the SERVFAIL for a failed handler is written under a context detached from the request's cancellation (the handler's error is typically the expiry of that very context, and the UDP / TCP / DoT writers turn its deadline into the write deadline): a plain-DNS or DoT client gets the same SERVFAIL a DoH, DoQ or DNSCrypt client gets", "C01-R34": "a debug (CHAOS-class) query is resolved as class IN by rewriting the server's request message in place; the handler closure of mainmw defers a function that stores the question class back, so the SERVFAIL the server builds from that message when the pipeline fails carries the client's own question", "C01-R33": "packWithPrefix returns the bytes that PackBuffer returned behind the prefix (shared with C06-R15): a TCP / DoT / DoQ client is not sent the untouched pooled buffer with a correct length in front of it", "C01-R32": "ecscache writeUpstreamResponse stores the cache clone before the requesting client's ECS option is put on the response (shared with C04-R5): no later client is answered with another client's subnet or with an OPT record it did not ask for", "C01-R31": "the cloner copies address records field by field into objects of its own pools (no whole-struct copy that shares the address bytes with the cached original; shared with C07-R5); R32: the ECS cache stores its clone before the client's own ECS data is put on the response (shared with C04-R5)", "C01-R29": "a stream connection is closed only after the wait for its in-flight queries: in serveTCPConn the close runs in the deferred function that waits, after the wait, or in a function deferred earlier (run later); never in the body or in a function deferred later", "C01-R30": "isNonCriticalNetError is true for a deadline error and for every net.Error that reports a timeout (the context.DeadlineExceeded of the DoQ accept poll is one): the accept and read loops go on after a poll that found nothing", "C01-R27": "both cache keys depend on the question's name, type and class (shared with C04-R2)", "C01-R28": "forward.Handler.ServeDNS returns the exchange error whenever there is one, also when a (mismatching) reply came with it (table shared with C17-R1)", "C01-R26": "request-path code does not write into the objects shared by all requests of a server group or profile (DDR record templates; shared with C07-R6)", "C01-R25": "bindtodevice writer: the request's deadline is set on the socket before the write", "C01-R24": "the response code the pipeline produced survives SetReply (Android metric path, cached results)", "C01-R23": "a handler that has written a response returns nil or that write's own error only (the server turns every other handler error into a second, SERVFAIL response)", "C01-RC": "class rules (error chains, shadowed results, character classes, crossed arguments, pool constructors, array pools, loop completeness, loop-carried buffers, replacing setters, complete clones, Grow arithmetic, pooled-buffer escape, sorted searches, fresh decode targets, per-iteration objects, whole-message copies, codec guards) over the packages this property rests on", "C01-R22": "slices.Grow amounts are computed from len(s), never from cap(s) (getTCPBuffer and every other growth site)", "C01-R20": "every Unpack is bounded by the bytes read for this message (shared with C06-R1); pooled RR parts are fully re-initialised by the cloner (shared with C07-R1)", "C01-R18": "the bytes of a received datagram stay the session's own until its response was written (buffer-lifetime rules shared with C06-R2)", "C01-R19": "Android metric-domain path: the pipeline serves a clone under the shared name; the response is made a reply to the client's own message (SetReply, replaceResp) before it is written, with or without answers",
+			Rules: map[string]string{"C01-R39": "the JSON encoding of a DoH response is built from the question, answer, authority and additional sections of the message: a client of the JSON API gets the same records as one of the wire encodings (the format followed, Google's, has an Authority field)", "C01-R38": "a DoH POST body is read entirely, or through a limiter of at least dns.MaxMsgSize bytes: a well-formed query is not cut to a smaller size (and then refused) on this encoding only", "C01-R37": "the stream writer truncates again after the keep-alive option was added (shared with C08-R22): a response that the option pushes over 65535 bytes is sent truncated, not replaced by a SERVFAIL for a packing error", "C01-R36": "the plain-DNS listener reads UDP datagrams into buffers that hold every well-formed query (dns.MaxMsgSize): a longer datagram is cut by the read, fails to unpack and is dropped without a response (known finding F65: production reads into 512 bytes)", "C01-R35": "the SERVFAIL for a failed handler is written under a context detached from the request's cancellation (the handler's error is typically the expiry of that very context, and the UDP / TCP / DoT writers turn its deadline into the write deadline): a plain-DNS or DoT client gets the same SERVFAIL a DoH, DoQ or DNSCrypt client gets", "C01-R34": "a debug (CHAOS-class) query is resolved as class IN by rewriting the server's request message in place; the handler closure of mainmw defers a function that stores the question class back, so the SERVFAIL the server builds from that message when the pipeline fails carries the client's own question", "C01-R33": "packWithPrefix returns the bytes that PackBuffer returned behind the prefix (shared with C06-R15): a TCP / DoT / DoQ client is not sent the untouched pooled buffer with a correct length in front of it", "C01-R32": "ecscache writeUpstreamResponse stores the cache clone before the requesting client's ECS option is put on the response (shared with C04-R5): no later client is answered with another client's subnet or with an OPT record it did not ask for", "C01-R31": "the cloner copies address records field by field into objects of its own pools (no whole-struct copy that shares the address bytes with the cached original; shared with C07-R5); R32: the ECS cache stores its clone before the client's own ECS data is put on the response (shared with C04-R5)", "C01-R29": "a stream connection is closed only after the wait for its in-flight queries: in serveTCPConn the close runs in the deferred function that waits, after the wait, or in a function deferred earlier (run later); never in the body or in a function deferred later", "C01-R30": "isNonCriticalNetError is true for a deadline error and for every net.Error that reports a timeout (the context.DeadlineExceeded of the DoQ accept poll is one): the accept and read loops go on after a poll that found nothing", "C01-R27": "both cache keys depend on the question's name, type and class (shared with C04-R2)", "C01-R28": "forward.Handler.ServeDNS returns the exchange error whenever there is one, also when a (mismatching) reply came with it (table shared with C17-R1)", "C01-R26": "request-path code does not write into the objects shared by all requests of a server group or profile (DDR record templates; shared with C07-R6)", "C01-R25": "bindtodevice writer: the request's deadline is set on the socket before the write", "C01-R24": "the response code the pipeline produced survives SetReply (Android metric path, cached results)", "C01-R23": "a handler that has written a response returns nil or that write's own error only (the server turns every other handler error into a second, SERVFAIL response)", "C01-RC": "class rules (error chains, shadowed results, character classes, crossed arguments, pool constructors, array pools, loop completeness, loop-carried buffers, replacing setters, complete clones, Grow arithmetic, pooled-buffer escape, sorted searches, fresh decode targets, per-iteration objects, whole-message copies, codec guards) over the packages this property rests on", "C01-R22": "slices.Grow amounts are computed from len(s), never from cap(s) (getTCPBuffer and every other growth site)", "C01-R20": "every Unpack is bounded by the bytes read for this message (shared with C06-R1); pooled RR parts are fully re-initialised by the cloner (shared with C07-R1)", "C01-R18": "the bytes of a received datagram stay the session's own until its response was written (buffer-lifetime rules shared with C06-R2)", "C01-R19": "Android metric-domain path: the pipeline serves a clone under the shared name; the response is made a reply to the client's own message (SetReply, replaceResp) before it is written, with or without answers",
 				"C01-R1": "acceptMsg decision table", "C01-R2": "serveDNS (undecodable input dropped) and serveDNSMsgInternal gate/effect tables",
 				"C01-R3": "at most one write event per ResponseWriter parameter on every path",
 				"C01-R4": "DoQ and DoH glue: one answer per request, from this request's recorder (SERVFAIL / HTTP 500 when nothing was written, HTTP 400 for undecodable requests)", "C01-R5": "defer handlePanicAndRecover dominates serving",
@@ -244,6 +244,8 @@ func (s *c01Summ) noWriteOnEdge(e an.CondEdge, call *ssa.Call) bool {
 }
 
 func runC01(c *an.Ctx) {
+	c.Floor("C01-R39", 1)
+	c01JSONAllSections(c, "C01-R39")
 	c.Floor("C01-R38", 1)
 	c01PostBodyWhole(c, "C01-R38")
 	c.Floor("C01-R37", 1)
